@@ -102,10 +102,9 @@ func processInput(input string, p Parser, vm *vm.Type, doOut bool) {
 		}
 
 		ip := len(*vm.CR.CS)
-		if doOut {
-			ByteCode(e, vm.CR)
-		} else {
-			ByteCodeNoStck(e, vm.CR)
+		if err := Compile(e, vm.CR, !doOut); err != nil {
+			fmt.Println(err)
+			continue
 		}
 
 		if *flags.ByteCodeFlag {
